@@ -964,6 +964,7 @@ package websocket
 //@ assert at call:Write#1[C14.reqowned]: len(req.Header["Upgrade"]) == 1 && streq(req.Header["Upgrade"][0], "websocket") && len(req.Header["Connection"]) == 1 && streq(req.Header["Connection"][0], "Upgrade") && \
 //@     len(req.Header["Sec-WebSocket-Version"]) == 1 && streq(req.Header["Sec-WebSocket-Version"][0], "13") && streq(req.Method, "GET") && req.URL == u
 //@ assert at call:Write#1[C16.conn]: arg1 == netConn
+//@ assert at call:Write#1[C16.deadline]: imp(extres("(context.Context).Deadline", 1, ctx), netConn.g_wdl && netConn.g_rdl)
 //@ assert at call:computeAcceptKey#1[C14.thiskey]: arg0 == ck
 //@ assert at call:netDial#1[C18.addr]: arg2 == hp && streq(arg1, "tcp")
 //@ assert at call:Write#1[C14.reqhost]: true
